@@ -1,5 +1,7 @@
 import Poulpy.Driver.Util
+import Poulpy.Driver.Ep
 import Poulpy.Model.Lut
+import Poulpy.Model.Core.Blind
 /-
 Driver of the C14 model.  Request `id lut <sub-op> k=v …` (same keys as `pvh lut`):
 
@@ -14,6 +16,11 @@ Driver of the C14 model.  Request `id lut <sub-op> k=v …` (same keys as `pvh l
                                            → the expected plaintext of a blind rotation:
   `ok idx=<t> data=<poly0 limbs>` where `t = (b + Σ a_i s_i) mod 2·n·ext` of the mod-switched LWE and
   the polynomial is polynomial 0 of `lutRotate t (lutSet …)`.
+* `blindct big= n= resb= ress= rank= lweb= left= limbs=l0|l1|… lut=<poly0>;<poly1>;… dist=block|binary|other block=
+   gp=<base2k>,<rank>,<dsize>,<dnum>,<size> g=<key0>;<key1>;…`
+                                           → the executed blind rotation on ciphertexts (`Core.Blind.execute`): the
+  content of `res` after `blind_rotation_execute`, `<C>x<S>:<ints>` (column, limb, coefficient); a LUT polynomial is
+  `limb0|limb1|…`; a key is the flat integer list of one GGSW (row, input column, output column, limb, coefficient).
 -/
 namespace Drv.Lut
 open _root_.Lut
@@ -85,6 +92,29 @@ def handle (ts : List String) : String :=
       | .ok [] => "empty"
       | .panic c => s!"panic:{c}"
       | .err e => s!"err:{e}"
+  | "blindct" :: kv =>
+    let n := kvNat kv "n"
+    match kvNats kv "gp" with
+    | [gb, grank, dsize, dnum, gsize] =>
+      let cols := grank + 1
+      let mkKey (str : String) : Option Core.EpGGSW :=
+        let gd := ints str
+        if gd.length != dnum * cols * cols * gsize * n then none
+        else some { base2k := gb, n := n, rank := grank, dsize := dsize, dnum := dnum, size := gsize,
+                    cells := (Drv.Ep.chunk (cols * gsize * n) gd).map (Drv.Ep.mkCols n cols gsize) }
+      match (((Drv.kv kv "g").getD "").splitOn ";").mapM mkKey with
+      | none => "err:parse-g"
+      | some keys =>
+        let dist : Core.Blind.Dist := match (Drv.kv kv "dist").getD "" with
+          | "block" => .binaryBlock (kvNat kv "block")
+          | "binary" => .binaryOther
+          | _ => .other
+        let lut : Core.Blind.LutIn :=
+          { n := n, data := (((Drv.kv kv "lut").getD "").splitOn ";").map parseLimbs, left := kvNat kv "left" == 1 }
+        let lwe : Core.Blind.Lwe := { base2k := kvNat kv "lweb", limbs := parseLimbs ((Drv.kv kv "limbs").getD "") }
+        Drv.Ep.showOutcome (Core.Blind.execute (kvNat kv "big" == 1) n (kvNat kv "resb") (kvNat kv "ress") (kvNat kv "rank")
+          lwe lut { dist := dist, keys := keys })
+    | _ => "err:parse-gp"
   | _ => "bad-op"
 
 end Drv.Lut
